@@ -211,3 +211,4 @@ class Nameplate:
     S5B.upon(lost, enter=S5A, outputs=[])
     S5.upon(release, enter=S5, outputs=[])  # mailbox is lazy
     S5.upon(close, enter=S5, outputs=[])
+    S5.upon(_set_nameplate, enter=S5, outputs=[])  # code chosen after we closed
